@@ -2172,6 +2172,8 @@ fn run_ns_project(n: u64, rng: &mut Rng, out: &mut Out, dump: bool) -> Result<()
 const W_GLOBAL_LOCAL: &str = "CONFIGURATION Conf\nVAR_GLOBAL\n    g : DINT;\nEND_VAR\nTASK Fast (INTERVAL := T#10ms, PRIORITY := 1);\nPROGRAM Inst WITH Fast : Main;\nEND_CONFIGURATION\n\nPROGRAM Main\nVAR\n    x : DINT;\n    y : DINT;\nEND_VAR\n    x := g + 1;\n    y := x;\nEND_PROGRAM\n";
 const W_XFILE: &str = "FUNCTION Foo : DINT\nVAR_INPUT\n    a : DINT;\nEND_VAR\n    Foo := a + 1;\nEND_FUNCTION\n=====\nFUNCTION Bar : DINT\nVAR_INPUT\n    a : DINT;\nEND_VAR\n    Bar := a + Foo(a);\nEND_FUNCTION\nPROGRAM Main\nVAR\n    x : DINT;\nEND_VAR\n    x := Bar(2) + Foo(1);\nEND_PROGRAM\n";
 const W_ARG: &str = "FUNCTION AddK : DINT\nVAR_INPUT\n    k : DINT;\nEND_VAR\n    AddK := k + 1;\nEND_FUNCTION\n\nPROGRAM Main\nVAR\n    r : DINT;\nEND_VAR\n    r := AddK(k := 1);\nEND_PROGRAM\n";
+/// the other two forms of named arguments: FB invocation `fb(p := x, q => y)` and method call `inst.m(p := x)`
+const W_ARG_FB: &str = "FUNCTION_BLOCK Acc\nVAR_INPUT\n    k : DINT;\nEND_VAR\nVAR_OUTPUT\n    q : DINT;\nEND_VAR\nMETHOD PUBLIC Add : DINT\nVAR_INPUT\n    m : DINT;\nEND_VAR\n    Add := m + k;\nEND_METHOD\n    q := q + k;\nEND_FUNCTION_BLOCK\n\nPROGRAM Main\nVAR\n    fbi : Acc;\n    r : DINT;\n    s : DINT;\nEND_VAR\n    fbi(k := 2, q => r);\n    s := fbi.Add(m := 3);\nEND_PROGRAM\n";
 const W_TWO_METHODS: &str = "FUNCTION_BLOCK FbA\nVAR\n    acc : DINT;\nEND_VAR\nMETHOD PUBLIC Run : DINT\nVAR_INPUT\n    t : DINT;\nEND_VAR\n    acc := acc + t;\n    Run := acc;\nEND_METHOD\nEND_FUNCTION_BLOCK\n\nFUNCTION_BLOCK FbB\nVAR\n    acc : DINT;\nEND_VAR\nMETHOD PUBLIC Run : DINT\nVAR_INPUT\n    t : DINT;\nEND_VAR\n    acc := acc + t;\n    Run := acc;\nEND_METHOD\nEND_FUNCTION_BLOCK\n\nPROGRAM Main\nVAR\n    a : FbA;\n    b : FbB;\n    r : DINT;\nEND_VAR\n    r := a.Run(1);\n    r := b.Run(2);\nEND_PROGRAM\n";
 const W_INST: &str = "CONFIGURATION Conf\nVAR_GLOBAL\n    dd : DINT := 9;\nEND_VAR\nTASK Fast (INTERVAL := T#10ms, PRIORITY := 1);\nPROGRAM k WITH Fast : Main;\nEND_CONFIGURATION\n\nPROGRAM Main\nVAR\n    x : DINT;\nEND_VAR\n    x := dd + 1;\n    dd := x;\nEND_PROGRAM\n";
 const W_FIELD: &str = "PROGRAM Run\nVAR\n    hh : Pump;\n    r : DINT;\nEND_VAR\n    r := hh.gg(v := 1);\nEND_PROGRAM\n=====\nTYPE Rec : STRUCT\n    gg : DINT;\nEND_STRUCT\nEND_TYPE\n\nFUNCTION_BLOCK Pump\nMETHOD PUBLIC gg : DINT\nVAR_INPUT\n    v : DINT;\nEND_VAR\n    gg := v + 1;\nEND_METHOD\nEND_FUNCTION_BLOCK\n";
@@ -2185,7 +2187,11 @@ const WITNESSES: &[(&str, &str, &str, usize, &str)] = &[
     ("capture", W_GLOBAL_LOCAL, "g : DINT", 0, "x"),
     ("shadow", W_GLOBAL_LOCAL, "x : DINT", 0, "g"),
     ("capture-cross-file", W_XFILE, "Foo : DINT", 0, "Bar"),
+    // C16-missed-arg / -ctask / -cprog are repaired in /repo: regression witnesses, a reproduction is a violation
     ("missed-arg", W_ARG, "k : DINT", 0, "u"),
+    ("missed-arg-fb-input", W_ARG_FB, "k : DINT", 0, "u"),
+    ("missed-arg-fb-output", W_ARG_FB, "q : DINT", 0, "w"),
+    ("missed-arg-method", W_ARG_FB, "m : DINT", 0, "u"),
     ("missed-ctask", W_GLOBAL_LOCAL, "Fast (INTERVAL", 0, "Quick"),
     ("missed-cprog", W_GLOBAL_LOCAL, "Main\nVAR", 0, "Other"),
     ("pou-dup", W_TWO_METHODS, "t : DINT", 1, "u"),
@@ -2235,7 +2241,8 @@ fn run_witnesses(out: &mut Out) {
             Err(()) => "panic".to_string(),
         };
         let v: Vec<&str> = verdict.split(' ').collect();
-        let failed = v.iter().any(|w| matches!(*w, "wf=0" | "diag=0" | "comp=0" | "beh=0" | "back=0"));
+        // a panic of `rename` is never acceptable (for a recorded open finding it would otherwise hide as "not reproduced")
+        let failed = v.iter().any(|w| matches!(*w, "wf=0" | "diag=0" | "comp=0" | "beh=0" | "back=0" | "panic"));
         out.line(format!("# witness {class} reproduced={} detail={}", failed as u8, verdict.chars().take(160).collect::<String>()));
         out.count(if failed { "witness_reproduced" } else { "witness_not_reproduced" });
     }
